@@ -51,6 +51,9 @@ type c03Case struct {
 	Kind   string    `json:"kind"`
 	FinMs  int       `json:"fin_ms"`   // > 0: the peer closes its side at this instant (after its last chunk)
 	FinRst bool      `json:"fin_rst"`  // ... with a reset instead of a FIN
+	Peer     string  `json:"peer"`      // IP the connection reports as its remote address ("" = 198.51.100.7); "-" = not an IP address at all (a pipe)
+	PeerForm string  `json:"peer_form"` // tcp (16-byte net.IP in a *net.TCPAddr, default) | tcp4 (4-byte) | udp | str (another net.Addr, host:port string)
+	Phantom  string  `json:"phantom"`   // v4 | v6 | "" (the shared rotation: every fourth probe on an IPv6 phantom)
 }
 
 type c03Read struct {
@@ -80,6 +83,10 @@ type c03Res struct {
 	Marks      []vfMark     `json:"marks"`
 	Panic      string       `json:"panic"`
 	V6         bool         `json:"v6"`
+	Remote     string       `json:"remote"`     // RemoteAddr().String() as the handler saw it
+	RemoteLen  int          `json:"remote_len"` // length of the net.IP in the address object (0: neither TCP nor UDP address)
+	RemoteIP   string       `json:"remote_ip"`  // hex of the IP the address denotes ("" = none)
+	Phantom    string       `json:"phantom"`    // hex of the original destination as handed to the handler
 	Status     int          `json:"status"` // used/unused state of the registration a transport returned (-1: none returned)
 }
 
@@ -103,6 +110,7 @@ type c03Conn struct {
 	finRst   bool
 	res      *c03Res
 	hardStop time.Time
+	remote   net.Addr
 }
 
 func (c *c03Conn) ms(t time.Time) float64 { return float64(t.Sub(c.start).Microseconds()) / 1000 }
@@ -231,7 +239,32 @@ func (c *c03Conn) SetDeadline(t time.Time) error      { c.setDL(t); return nil }
 func (c *c03Conn) SetReadDeadline(t time.Time) error  { c.setDL(t); return nil }
 func (c *c03Conn) SetWriteDeadline(t time.Time) error { return nil }
 func (c *c03Conn) LocalAddr() net.Addr                { return &net.TCPAddr{IP: net.IPv4(192, 0, 2, 1), Port: 443} }
-func (c *c03Conn) RemoteAddr() net.Addr               { return vfClientAddr }
+func (c *c03Conn) RemoteAddr() net.Addr {
+	if c.remote != nil {
+		return c.remote
+	}
+	return vfClientAddr
+}
+
+// the address object the accepted socket reports for its peer
+func c03Remote(peer, form string, port int) net.Addr {
+	if peer == "" {
+		return nil
+	}
+	if peer == "-" {
+		return c03StrAddr{"pipe"}
+	}
+	ip := net.ParseIP(peer)
+	switch form {
+	case "tcp4":
+		return &net.TCPAddr{IP: ip.To4(), Port: port}
+	case "udp":
+		return &net.UDPAddr{IP: ip, Port: port}
+	case "str":
+		return c03StrAddr{net.JoinHostPort(ip.String(), fmt.Sprint(port))}
+	}
+	return &net.TCPAddr{IP: ip, Port: port}
+}
 func (c *c03Conn) vfLogRelayStart()         {}
 func (c *c03Conn) vfLogRelayRead(b []byte) {}
 func (c *c03Conn) vfLogCall(v vfCall) {
@@ -331,7 +364,11 @@ func c03Run(s *vfStation, cs c03Case, wg *sync.WaitGroup, out *c03Res) {
 		}
 	}()
 	phantom := s.freshPhantom()
+	if cs.Phantom != "" {
+		phantom = c03hPhantom(s, cs.Phantom)
+	}
 	out.V6 = phantom.To4() == nil
+	out.Phantom = hex.EncodeToString(phantom)
 	if err := s.addOthers(cs.Regs, phantom); err != nil {
 		out.Err = err.Error()
 		return
@@ -342,7 +379,22 @@ func c03Run(s *vfStation, cs c03Case, wg *sync.WaitGroup, out *c03Res) {
 		return
 	}
 	out.StreamLen = len(stream)
-	conn := &c03Conn{changed: make(chan struct{}), res: out, fin: time.Duration(cs.FinMs) * time.Millisecond, finRst: cs.FinRst}
+	conn := &c03Conn{changed: make(chan struct{}), res: out, fin: time.Duration(cs.FinMs) * time.Millisecond, finRst: cs.FinRst,
+		remote: c03Remote(cs.Peer, cs.PeerForm, 40123)}
+	ra := conn.RemoteAddr()
+	out.Remote = ra.String()
+	var rip net.IP
+	switch x := ra.(type) {
+	case *net.TCPAddr:
+		rip, out.RemoteLen = x.IP, len(x.IP)
+	case *net.UDPAddr:
+		rip, out.RemoteLen = x.IP, len(x.IP)
+	default:
+		if host, _, err := net.SplitHostPort(ra.String()); err == nil {
+			rip = net.ParseIP(host)
+		}
+	}
+	out.RemoteIP = hex.EncodeToString(rip)
 	off := 0
 	for _, ch := range cs.Chunks {
 		n := ch[1]
@@ -434,6 +486,7 @@ func TestVerifC03(t *testing.T) {
 	if err != nil {
 		t.Fatal(err)
 	}
+	s.rm.GeoIP = c03GeoDB
 	out := c03Out{Table: s.table(), Results: make([]*c03Res, len(cases)), Obfs4: map[string]int{}}
 	out.Obfs4["min_handshake"], out.Obfs4["mark_start"], out.Obfs4["max_handshake"], out.Obfs4["mark_len"], out.Obfs4["mac_len"] = obfs4.VerifConsts()
 	var wg sync.WaitGroup
